@@ -209,4 +209,8 @@ CLAUSES = [
     Clause("pda", pda_cases, run_pda, quick=350, thorough=3000, rule="random/structured PDAs x closure limits {1,2,5,30,200} (and 1000 in the thorough tier) " + R + "; when a closure exceeds the limit only soundness is asserted"),
     Clause("wordset", wordset_cases, run_wordset, quick=100, thorough=500, rule="generate_language on a set of strings returns it unchanged"),
 ]
+from props import workbench as WB   # noqa: E402
+
+CLAUSES.append(Clause("object_history", lambda tier: WB.fa_programs(tier, "enumerate"), WB.run_fa, quick=400, thorough=4000,
+                      rule="(generate_language and *_words_up_to_n on DFA/NFA objects with a history: enumerated with the same bound before and after in-place modifications) " + WB.FA_RULE))
 KNOWN_PREDICATES = {}
